@@ -64,6 +64,8 @@ type sconn struct {
 	nwrites  int
 	readsIn  []byte    // every byte returned by Read, in order
 	rlog     []readLog // every Read return that carried bytes or an error, in order
+	wdl      time.Time
+	wlog     []writeAt
 	local    net.Addr
 	remote   net.Addr
 }
@@ -123,6 +125,7 @@ func (c *sconn) Write(b []byte) (int, error) {
 	if len(b) == 0 {
 		return 0, nil
 	}
+	c.wlog = append(c.wlog, writeAt{at: time.Now(), deadline: c.wdl})
 	c.nwrites++
 	if len(c.wplans) > 0 {
 		p := c.wplans[0]
@@ -150,11 +153,26 @@ func (c *sconn) Close() error {
 	return nil
 }
 
-func (c *sconn) LocalAddr() net.Addr                { return c.local }
-func (c *sconn) RemoteAddr() net.Addr               { return c.remote }
-func (c *sconn) SetDeadline(t time.Time) error      { return nil }
-func (c *sconn) SetReadDeadline(t time.Time) error  { return nil }
-func (c *sconn) SetWriteDeadline(t time.Time) error { return nil }
+func (c *sconn) LocalAddr() net.Addr               { return c.local }
+func (c *sconn) RemoteAddr() net.Addr              { return c.remote }
+func (c *sconn) SetDeadline(t time.Time) error     { return nil }
+func (c *sconn) SetReadDeadline(t time.Time) error { return nil }
+
+// the write deadline the connection arms, and for every Write call the time of the call and the deadline in force
+func (c *sconn) SetWriteDeadline(t time.Time) error {
+	c.mu.Lock()
+	c.wdl = t
+	c.mu.Unlock()
+	return nil
+}
+
+type writeAt struct{ at, deadline time.Time }
+
+func (c *sconn) writeLog() []writeAt {
+	c.mu.Lock()
+	defer c.mu.Unlock()
+	return append([]writeAt(nil), c.wlog...)
+}
 
 func (c *sconn) isClosed() bool {
 	c.mu.Lock()
